@@ -75,7 +75,8 @@ class HangDetected(BaseException):
 # Budgets are CPU time of this process (ITIMER_VIRTUAL, as wp-C02FIX's step watchdog in harness/c02.py): a loaded machine -- Lean building on
 # every core next to the check -- stretches wall clock, not CPU time, so it cannot make a correct tree look hung (review 3).  A call that
 # blocks without burning CPU is caught by a wall-clock backstop twenty times as long.
-HANG_S = 1.5      # CPU seconds for one datagram_received / decoder / encoder call (they take milliseconds; a 12-datagram flood with 480 records ~ 50 ms)
+HANG_S = 5.0      # CPU seconds for one datagram_received / decoder / encoder call (they take milliseconds; a 12-datagram flood with 480 records ~ 50 ms;
+                  # a full garbage collection that happens to start inside the call can take over a second late in a thorough run)
 CASE_S = 45.0     # CPU seconds for one whole simulated case (they take 20-300 ms)
 WALL_FACTOR = 20.0
 _guards = []
@@ -92,6 +93,19 @@ def _arm():
 def _alarm(signum, frame):
     nowc, noww = time.process_time(), time.time()
     hit = False
+    f = frame
+    while f is not None:
+        if f.f_code.co_name == "__del__":
+            # the interpreter is running finalizers of a garbage collection (the signal is delivered at the first bytecode after the collector's
+            # C loop): that is the harness's garbage, not a loop in the library, and an exception raised here would be swallowed anyway.
+            # Seen five times in one thorough run (`Exception ignored in BaseEventLoop.__del__ ... HangDetected`).  Look again shortly.
+            for g in _guards:
+                g.cpu_deadline = max(g.cpu_deadline, nowc + 0.5)
+                g.wall_deadline = max(g.wall_deadline, noww + 0.5)
+            if _guards:
+                _arm()
+            return
+        f = f.f_back
     for g in _guards:
         if g.cpu_deadline <= nowc + 0.01 or g.wall_deadline <= noww + 0.0005:
             # re-armed: the code that is interrupted may be called again (e.g. by the event loop)
@@ -1641,6 +1655,8 @@ def run(ctx):
                 break
         if len(acc) >= 40:
             flush_model(res, ctx, acc, seen)
+            import gc
+            gc.collect()      # the simulators' event loops and their cycles are collected here, outside the watchdog's guarded calls
     flush_model(res, ctx, acc, seen)
     # the API / timer blocks of the closed composite (registration, browser and lookup start/stop, purge, user listeners): own stream
     from . import c15api
